@@ -31,6 +31,9 @@ def run(ck):
     ck.run_rule(b5_is_check)
     ck.run_rule(b6_from_occupancy)
     ck.run_rule(b7_dispatch)
+    # the slider part of every attack set is a table lookup: reader and table fill must use the same slot for the same (square, blockers) (C09's M3)
+    from . import c09 as _c09
+    ck.run_rule(_c09.m3_reader_writer, {})
 
 
 def board_fields(ck):
